@@ -434,50 +434,105 @@ def run(ctx):
             ctx.ob("C19.c", init, "coarse intervals: %s" % au.short(it, 60), ok,
                    "coarse intervals must be consecutive pairs (x[0:-1], x[1:]) of one date range so that they partition the fine steps "
                    "without gap or overlap", node=lp)
-            # ---- C19.i: the sequence spans [start, end)
-            seq = a.value
-            seq_name = seq.id if isinstance(seq, ast.Name) else None
-            opened = closed = False
-            o_node = c_node = None
-            if seq_name:
-                for s2 in au.walk_stmts(init.body):
-                    if s2.lineno >= lp.lineno:
-                        continue
-                    for x in au.walk_own(s2):
-                        if isinstance(x, ast.Call) and isinstance(x.func, ast.Attribute) and au.base_name(x.func) == seq_name:
-                            txt = au.U(x)
-                            if x.func.attr == "insert" and x.args and au.const_num(x.args[0]) == 0 and "start" in txt:
-                                opened, o_node = True, x
-                            if x.func.attr in ("append", "union") and "end" in txt:
-                                closed, c_node = True, x
-                            if x.func.attr == "insert" and x.args and au.const_num(x.args[0]) != 0 and len(x.args) > 1 and "end" in au.U(x.args[1]):
-                                closed, c_node = True, x
-                        if isinstance(x, ast.Call) and au.method_name(x) in ("union", "append", "DatetimeIndex", "concat") and seq_name in au.names_in(x) \
-                                and "start" in au.U(x) and "end" in au.U(x):
-                            opened = closed = True
-            if opened and closed and o_node is not None and c_node is not None:
-                # the two repairs are independent of each other: they may not sit in mutually exclusive arms of one `if`
-                def arms(n):
-                    out, child = {}, n
-                    for a0 in p.ancestors(n):
-                        if isinstance(a0, ast.If):
-                            out[id(a0)] = "body" if any(child is b0 for b0 in a0.body) else ("orelse" if any(child is b0 for b0 in a0.orelse) else "test")
-                        child = a0
-                    return out
-                ao, ac = arms(o_node), arms(c_node)
-                excl = [k for k in ao if k in ac and {ao[k], ac[k]} == {"body", "orelse"}]
-                if excl:
-                    ctx.ob("C19.i", init, "coarse boundaries span the window", False,
-                           "the window end is appended (%s) only on the arm on which the window start was not prepended (%s): a window that neither "
-                           "starts nor ends on a boundary of the coarse step (anchored frequency 'W', Friday to Wednesday) loses its last partial "
-                           "interval - the asset has no variables for those fine steps" % (p.where(c_node), p.where(o_node)), node=c_node)
-                    continue
+
+    # ---- C19.i: the boundaries of the coarse intervals span [start, end) - whichever way the intervals are cut out of them
+    coarse = [st for st in au.walk_stmts(init.body) if isinstance(st, ast.Assign) and isinstance(st.targets[0], ast.Name)
+              and isinstance(st.value, ast.Call) and au.method_name(st.value) == "date_range"
+              and au.U(au.kwarg(st.value, "start") or ast.Constant(None)) == "self.start"
+              and au.U(au.kwarg(st.value, "freq") or ast.Constant(None)) != "self.freq"]
+    if not coarse:
+        ctx.ob("C19.i", init, "coarse boundaries span the window", None, "date_range(start=self.start, ..., freq=<coarse freq>) not found")
+    for rng in coarse:
+        seq_name = rng.targets[0].id
+        opened = closed = False
+        o_node = c_node = None
+        repair_stmts = set()
+        for s2 in au.walk_stmts(init.body):
+            if s2.lineno <= rng.lineno:
+                continue
+            for x in au.walk_own(s2):
+                if isinstance(x, ast.Call) and isinstance(x.func, ast.Attribute) and au.base_name(x.func) == seq_name:
+                    txt = au.U(x)
+                    if x.func.attr == "insert" and x.args and au.const_num(x.args[0]) == 0 and "start" in txt:
+                        opened, o_node = True, x
+                        repair_stmts.add(id(s2))
+                    if x.func.attr in ("append", "union") and "end" in txt:
+                        closed, c_node = True, x
+                        repair_stmts.add(id(s2))
+                    if x.func.attr == "insert" and x.args and au.const_num(x.args[0]) != 0 and len(x.args) > 1 and "end" in au.U(x.args[1]):
+                        closed, c_node = True, x
+                        repair_stmts.add(id(s2))
+                if isinstance(x, ast.Call) and au.method_name(x) in ("union", "append", "DatetimeIndex", "concat") and seq_name in au.names_in(x) \
+                        and "start" in au.U(x) and "end" in au.U(x):
+                    opened = closed = True
+                    repair_stmts.add(id(s2))
+        excl_done = False
+        if opened and closed and o_node is not None and c_node is not None:
+            # the two repairs are independent of each other: they may not sit in mutually exclusive arms of one `if`
+            def arms(n):
+                out, child = {}, n
+                for a0 in p.ancestors(n):
+                    if isinstance(a0, ast.If):
+                        out[id(a0)] = "body" if any(child is b0 for b0 in a0.body) else ("orelse" if any(child is b0 for b0 in a0.orelse) else "test")
+                    child = a0
+                return out
+            ao, ac = arms(o_node), arms(c_node)
+            excl = [k for k in ao if k in ac and {ao[k], ac[k]} == {"body", "orelse"}]
+            if excl:
+                ctx.ob("C19.i", init, "coarse boundaries span the window", False,
+                       "the window end is appended (%s) only on the arm on which the window start was not prepended (%s): a window that neither "
+                       "starts nor ends on a boundary of the coarse step (anchored frequency 'W', Friday to Wednesday) loses its last partial "
+                       "interval - the asset has no variables for those fine steps" % (p.where(c_node), p.where(o_node)), node=c_node)
+                excl_done = True
+        if not excl_done:
             ctx.ob("C19.i", init, "coarse boundaries span the window", opened and closed,
                    "the coarse intervals are consecutive pairs of %s = date_range(start, end, freq) only; the range stops at the last multiple "
                    "of the coarse step before the end (and, for anchored frequencies such as 'W', starts at the first anchor after the "
                    "start): fine steps before the first / after the last boundary belong to no coarse interval, the asset is silently "
-                   "inactive there (hourly grid of 84 h with a daily asset: 72 steps covered; two weeks with 'W': one of two)" % (seq_name or au.U(seq)),
-                   node=lp, ok_detail="opened with the window start and closed with the window end")
+                   "inactive there (hourly grid of 84 h with a daily asset: 72 steps covered; two weeks with 'W': one of two)" % seq_name,
+                   node=rng, ok_detail="opened with the window start and closed with the window end")
+        # ... and both ends of the sequence bound an interval: the uses of the sequence (after the repairs) include its first and its last element
+        first_used = last_used = False
+        uses = []
+        for s2 in au.walk_stmts(init.body):
+            if s2.lineno <= rng.lineno or id(s2) in repair_stmts:
+                continue
+            if isinstance(s2, ast.If) and any(id(b0) in repair_stmts for b0 in s2.body + s2.orelse):
+                continue     # the test that decides on a repair
+            for x in au.walk_own(s2):
+                if isinstance(x, ast.Name) and x.id == seq_name and isinstance(x.ctx, ast.Load):
+                    par = p.parent(x)
+                    uses.append(x)
+                    if isinstance(par, ast.Subscript) and par.value is x:
+                        sl = par.slice
+                        if isinstance(sl, ast.Slice):
+                            lo = au.const_num(sl.lower) if sl.lower is not None else 0
+                            hi = au.const_num(sl.upper) if sl.upper is not None else None
+                            if sl.lower is not None and lo is None or (sl.upper is not None and hi is None) or sl.step is not None:
+                                first_used = last_used = True      # not interpreted
+                                continue
+                            if lo == 0:
+                                first_used = True
+                            if sl.upper is None:
+                                last_used = True
+                        else:
+                            k = au.const_num(sl)
+                            if k is None:
+                                first_used = last_used = True      # variable index: any element
+                            elif k == 0:
+                                first_used = True
+                            elif k == -1:
+                                last_used = True
+                    else:
+                        first_used = last_used = True
+        if uses:
+            ctx.ob("C19.i", init, "first and last boundary bound a coarse interval", first_used and last_used,
+                   "after it has been opened / closed, the boundary sequence %s is only read through slices that leave out its %s element: %s. The "
+                   "%s - an asset that ends before the horizon ends gets variables (and dispatch) for all later steps" % (
+                       seq_name, "last" if first_used else "first", sorted({au.short(p.parent(u), 30) for u in uses}),
+                       "last interval is not bounded by the window end: it collects every fine step up to the end of the reference grid"
+                       if first_used else "first interval is not bounded by the window start"),
+                   node=uses[0], key="both ends of the boundary sequence are used")
     ctx.require(n_c >= 8, "fewer than 8 sub-grid attribute assignments found in Timegrid.__init__", rules=['C19.c', 'C19.i', 'C19.j'])
     # ---- C14.i: readers of Dt in set-ups
     for fn2 in sorted(p.all_functions(), key=lambda f: f.qualname):
